@@ -55,6 +55,8 @@ def tree_hash_dir(d):
     return h.hexdigest()[:16]
 
 
+DEP_CRATES = 'robust,float_next_after,num_traits,geo_types'
+
 CONFIGS = {
     # name: (crate list, cargo args)
     'default': ('geo_booleanop', ['-p', 'geo-booleanop']),
@@ -166,6 +168,34 @@ class Ctx:
                 fcntl.flock(lock, fcntl.LOCK_UN)
                 lock.close()
         return self._facts['fixture']
+
+    def dep_facts(self):
+        """facts of the dependency crates (dumped with RUSTC_WRAPPER); dict crate -> Facts"""
+        if '_deps' in self._facts:
+            return self._facts['_deps']
+        th = tree_hash(self.repo)
+        out = os.path.join(WORK, 'facts-%s-deps' % th)
+        lock = open(os.path.join(WORK, 'lock-%s-deps' % th), 'w')
+        fcntl.flock(lock, fcntl.LOCK_EX)
+        try:
+            names = DEP_CRATES.split(',')
+            if not (os.path.isdir(out) and all(_fact_file(out, n) for n in names)):
+                r = subprocess.run([os.path.join(VERIF, 'extract_deps.sh'), self.repo, out, DEP_CRATES],
+                                   stdout=subprocess.PIPE, stderr=subprocess.STDOUT, text=True)
+                if r.returncode != 0:
+                    sys.stdout.write(r.stdout[-3000:])
+                    raise BuildFailed('fact extraction for the dependency crates failed')
+            res = {}
+            for n in names:
+                fp = _fact_file(out, n)
+                if fp:
+                    res[n] = Facts.load(fp)
+            self._facts['_deps'] = res
+            self.extracted.append({'config': 'deps', 'crates': sorted(res)})
+            return res
+        finally:
+            fcntl.flock(lock, fcntl.LOCK_UN)
+            lock.close()
 
     def purity(self, config=None):
         config = config or self.config
